@@ -45,6 +45,11 @@ def decode_summary(layout_eval, mod, cls):
     if found is None:
         raise AnalysisError(f"{cls.name} has no _decode")
     fn, fmod, _ = found
+    if any(isinstance(n, ast.Attribute) and isinstance(n.value, ast.Name) and n.value.id == "self" and isinstance(getattr(n, "_parent", None), ast.Call) and n._parent.func is n
+           for n in ast.walk(fn)):
+        # template method: specialise for this class by replacing self.<method>(...) with the body its MRO selects
+        from .prenorm import SelfInliner
+        fn = SelfInliner(layout_eval.find_method, mod, cls).specialise(fn)
     try:
         params, paths = summarize(fn)
     except Undecidable as e:
